@@ -24,7 +24,7 @@ class Cache:
     cols: dict[UUID, Col]  # all columns in current scope (including hidden ones)
 
     # the following are only necessary for subquery detection
-    limit: int
+    limit: int | None  # `n` of the `slice_head` in the current SELECT (0 is a limit, too)
     group_by: set[UUID]
     is_filtered: bool
 
@@ -87,7 +87,7 @@ class Cache:
             partition_by=[],
             derived_from={node},
             cols={col._uuid: col for col in node.cols.values()},
-            limit=0,
+            limit=None,
             group_by=set(),
             is_filtered=False,
             backend=type(node),
@@ -179,7 +179,7 @@ class Cache:
             res.uuid_to_name = {uid: name for name, uid in res.name_to_uuid.items()}
 
             res.derived_from = self.derived_from | right_cache.derived_from
-            res.limit = 0
+            res.limit = None
             res.group_by = set()
             res.is_summarized = False
             # the WHERE clause of the right side becomes part of the joined SELECT
@@ -197,7 +197,7 @@ class Cache:
             res.uuid_to_name = self.uuid_to_name.copy()
 
             res.derived_from = self.derived_from | right_cache.derived_from
-            res.limit = 0
+            res.limit = None
             res.group_by = set()
             res.is_summarized = False
 
@@ -212,7 +212,7 @@ class Cache:
                 )
                 for uid, col in self.cols.items()
             }
-            res.limit = 0
+            res.limit = None
             res.group_by = set()
             res.is_filtered = False
             res.is_summarized = False
@@ -241,13 +241,13 @@ class Cache:
                 node,
                 verbs.Filter | verbs.Summarize | verbs.Arrange | verbs.GroupBy | verbs.Join | verbs.Union,
             )
-            and self.limit != 0
+            and self.limit is not None
         ):
             return f"`{node.__class__.__name__.lower()}` after `slice_head`"
 
         if (
             isinstance(node, verbs.Mutate)
-            and self.limit != 0
+            and self.limit is not None
             and any(
                 isinstance(fn, ColFn) and fn.op.ftype in (Ftype.AGGREGATE, Ftype.WINDOW) for fn in node.iter_col_nodes()
             )
